@@ -508,6 +508,30 @@ func (ch c02) Run(c *core.Ctx) {
 			strict(conn, "rows produced slowly for a client that reads slowly", map[string]any{"workload": "slow rows, slow reader", "round": round})
 		}
 	}
+	// (k) encryption negotiated twice on one connection (GSSAPI encryption asked for and TLS asked for, in
+	// either order, as libpq does with gssencmode=prefer sslmode=prefer): after the one single-byte answer
+	// the property allows, the output is backend messages
+	if c.Batch == 5%ch.Batches(c.Tier) && c.Begin(3950000) {
+		start := append(pg.Startup([][2]string{{"user", "u"}}), pg.Query("select 1")...)
+		for v, first := range [][][]byte{{pg.GSSENCRequest(), pg.SSLRequest()}, {pg.SSLRequest(), pg.GSSENCRequest()}, {pg.GSSENCRequest(), pg.GSSENCRequest()}, {pg.SSLRequest(), pg.SSLRequest()}, {pg.GSSENCRequest()}} {
+			conn := env.Dial(c04sess())
+			conn.NoLog = true
+			for _, pkt := range first {
+				conn.Send(pkt)
+				conn.Quiesce()
+			}
+			conn.Send(append(append([]byte{}, start...), pg.Terminate()...))
+			conn.Quiesce()
+			conn.CloseWrite()
+			if !conn.WaitClosed() {
+				c.Inconclusive("connection did not close (C02 double negotiation workload)")
+				return
+			}
+			c.Count("connections_negotiating_encryption_twice", 1)
+			c.Eval(fmt.Sprintf("double negotiation %d", v), true)
+			strict(conn, fmt.Sprintf("ssl / gss negotiation packets %d", v), map[string]any{"workload": "double negotiation", "variant": v})
+		}
+	}
 	// (f) writes interrupted half-way: the k-th transport Write of a canonical session takes half of its
 	// bytes and returns a temporary (timeout) error, for every k. Whether the server gives the connection
 	// up or completes the message, what the client has received is whole messages and, only at the very
